@@ -201,6 +201,8 @@ class Transformer:
         # kZoneGMT_0, so cannot be used.
         zones_map, links_map = self.remove_zones_and_links_with_similar_names(
             zones_map, links_map)
+        # A zone removed just above may have been the target of a link.
+        links_map = self.remove_links_to_missing_zones(links_map, zones_map)
 
         # Part 7: Replace the original maps with the transformed ones.
         self.rules_map = rules_map
